@@ -1020,11 +1020,15 @@ func resetMode(args []string) (mode string, rest []string, ok bool) {
 }
 
 // hardBlocked: some path of the snapshot cannot be created in the working tree as it is (the path is a
-// directory, or one of its parent names is a file)
+// directory, or one of its parent names is a file on disk or a file of the snapshot itself)
 func hardBlocked(o *Obs, es []ent) bool {
 	dirs := map[string]bool{}
 	for _, d := range o.Dirs {
 		dirs[d] = true
+	}
+	snap := map[string]bool{}
+	for _, e := range es {
+		snap[string(e.path)] = true
 	}
 	for _, e := range es {
 		p := string(e.path)
@@ -1033,7 +1037,9 @@ func hardBlocked(o *Obs, es []ent) bool {
 		}
 		for i := 0; i < len(p); i++ {
 			if p[i] == '/' {
-				if _, isFile := o.Files[p[:i]]; isFile {
+				// a parent name is a file on disk, or is itself a file of the snapshot (a snapshot that holds both
+				// `a` and `a/b` cannot be written out at all)
+				if _, isFile := o.Files[p[:i]]; isFile || snap[p[:i]] {
 					return true
 				}
 			}
